@@ -633,6 +633,7 @@ def oracle_case(case, known=(), ceiling=servers.CEILING):
     try:
         hostile, holding, stalled = set(), set(), set()
         armed, in_hook, waiting = set(), set(), set()
+        unadmitted = set()
         faulted = False
         for i, tok in enumerate(case["ops"]):
             t = tok[0]
@@ -691,7 +692,7 @@ def oracle_case(case, known=(), ceiling=servers.CEILING):
             if (t in "azh" or (t == "c" and tok[-2:] in (":r", ":b", ":e"))) and not in_hook:
                 # a client that has gone (or was turned away) keeps no tracked socket and no descriptor of the server:
                 # otherwise every such client costs the server a descriptor for good, and it dies of EMFILE in the end
-                starving = kind == "pool" and (len(holding | in_hook) >= case["nb"] or stalled)
+                starving = kind == "pool" and (len(holding) + len(in_hook) >= case["nb"] or stalled)
                 if not starving:
                     def live():
                         return sum(1 for c2 in sess.clients.values() if c2.open and not c2.eof)
@@ -712,11 +713,18 @@ def oracle_case(case, known=(), ceiling=servers.CEILING):
                                 "connection(s) and holds %d descriptor(s) beyond its baseline (harness sockets included)"
                                 % (live(), sn["c"], sn["f"], sn["fds"])), "C16:%s:departed-client-keeps-descriptor" % kind
             # which known shape, if any, excuses an unanswered good client right now
+            # - starvation: >= nbThreads clients hold an incomplete frame open - excuses a TIMEOUT of anybody;
+            # - stalled authentication (the accept thread is held): excuses a TIMEOUT of clients that connected while it lasted
+            #   (they are not admitted yet); those served before go on being served by the workers
             excuse = None
-            if kind == "pool" and len(holding | in_hook) >= case["nb"]:
+            if kind == "pool" and len(holding) >= case["nb"]:
                 excuse = SIG_STARVE
-            if kind == "pool" and stalled:
+            if kind == "pool" and stalled and k in unadmitted:
                 excuse = excuse or SIG_STALL
+            if t == "c" and kind == "pool" and stalled:
+                unadmitted.add(k)
+            if not stalled:
+                unadmitted.clear()
             if k in hostile or k in waiting or obs == "skip":
                 continue
             if t == "c" and obs != "ok":
@@ -767,16 +775,16 @@ def oracle_case(case, known=(), ceiling=servers.CEILING):
                     % (snap["A"], snap["L"], " (after an error from accept() or a failed spawn()/fork())" if faulted else ""),
                     "C16:%s:%s" % (kind, "accept-or-spawn-error-closes-server" if faulted else "accept-dead"))
         excuse = None
-        if kind == "pool" and len(holding | in_hook) >= case["nb"]:
+        if kind == "pool" and len(holding) >= case["nb"]:
             excuse = SIG_STARVE
         if kind == "pool" and stalled:
-            excuse = excuse or SIG_STALL
+            excuse = excuse or SIG_STALL              # the newcomer connects while the stall lasts
         probe = servers.Client(9999, sess)
         res = probe.connect("g")
         if res == "ok":
             sess.clients[9999] = probe
             res = probe.call("ping")
-        if res != "pong" and not (excuse and excuse in known):
+        if res != "pong" and not (res == "timeout" and excuse and excuse in known):
             return ("at the end: a new well-behaved client got %r%s" % (res, " (%s)" % excuse if excuse else ""),
                     excuse or "C16:%s:not-accepting" % kind)
         # the pool still has all its workers (each one lost is capacity gone for good: nbThreads such clients and it serves
